@@ -83,3 +83,11 @@ CLAIMS["C17"] = dict(level="exploration",
     technique="exhaustive enumeration of TLS 1.3 clients x every listed-but-unshared classical group x cookie sizes x HRR kinds (valid and four invalid forms) using a hooked, self-consistent server",
     text="For every TLS 1.3 client and every classical group it lists without a share the server is forced (verif hook) to request that group, with cookies of 0/1/32/255/1024 bytes added to the HRR before it enters the server transcript: CH2 must equal CH1 extension by extension except key_share (one fresh share of the requested group), the echoed cookie and padding, and the handshake must complete; HRRs selecting an unlisted group, an already-shared group, nothing at all, or a second HRR must be refused without another ClientHello.",
     note="Server = utls Server with hooks H1/H2; completion is required for cookie-less HRRs only (the server refuses a cookie in CH2); cookie insertion index observed, not enumerated.")
+CLAIMS["C12"] = dict(level="exploration",
+    technique="exhaustive enumeration of clients x unoffered-choice kinds x complement values against a hooked server that stays self-consistent where the protocol allows it",
+    text="For every client and every kind of server choice (TLS 1.3 / 1.2 suite, GREASE or cross-version suite id, key-share group, ALPN, compression, PSK identity, session-id echo) each value from the complement of the on-wire offer is forced or written into the server flight; the handshake must fail, HandshakeComplete stay false, no application data flow and ConnectionState never report the value.",
+    note="Suite and ALPN forcing keep the server's key schedule consistent (a client without the check would complete); byte-level ServerHello edits rely on rejection before Finished.")
+CLAIMS["C13"] = dict(level="exploration",
+    technique="exhaustive enumeration of clients x server version behaviours (max version, legacy_version-only negotiation, canary honest/stripped/forged) through verif hooks",
+    text="Every client is run against servers with MaxVersion 1.0..1.3 that either honour supported_versions or negotiate from legacy_version only, with the downgrade canary left, stripped or forced: a completed handshake must be at a version in the advertised set parsed from the wire, and a sentinel-carrying <=1.2 ServerHello must be refused when TLS 1.3 was offered.",
+    note="Server = utls Server with hooks H3/H4 (self-consistent).")
